@@ -308,7 +308,11 @@ func (r *runner) connect() bool {
 				} else {
 					_ = l.Broker.Send(&packet.Pubrec{ID: id})
 					id := id
-					l.Broker.WaitFor(1, func(g packet.Generic) bool { x, ok := g.(*packet.Pubrel); return ok && x.ID == id }, ev.Ceiling())
+					if l.Broker.WaitFor(1, func(g packet.Generic) bool { x, ok := g.(*packet.Pubrel); return ok && x.ID == id }, ev.Ceiling()) < 0 && !r.linkDead() {
+						// (judged after an earlier injected fault too: this is a new, live connection)
+						r.fail("resume/pubrec-not-answered", "the QoS 2 PUBLISH id=%d re-sent after the reconnect was answered with PUBREC, but the client never sent PUBREL (connection alive): the handshake of the recorded packet cannot finish", id)
+						return false
+					}
 					_ = l.Broker.Send(&packet.Pubcomp{ID: id})
 				}
 			} else {
@@ -405,6 +409,12 @@ func (r *runner) endLife(how string, cf client.ConnectFuture) {
 	if how != "close" {
 		if !within(func() { _ = cl.Close() }) {
 			r.fail("liveness/close-hangs", "Client.Close did not return after the connection ended (%s)\n--- library goroutines ---\n%s", how, strings.Join(bk.LibGoroutines(), "\n\n"))
+		}
+	}
+	// ... and so is the connect future of this client (state independent: judged after faults too)
+	if cf != nil && r.pending == nil {
+		if err := cf.Wait(ev.Ceiling()); err == future.ErrTimeout {
+			r.fail("future/unresolved-after-end:connect", "the client ended (%s) and Close returned, but its connect future is neither completed nor cancelled: a caller waiting for it would block forever", how)
 		}
 	}
 	if l != nil {
